@@ -111,6 +111,14 @@ def generate(rng: Prng, tier: str) -> dict:
     if kind == "arbitrary":
         n = w.choice([1, 2, 3, 5, 9, 16, 40])
         t = tree_model.gen_tree(w, n, wild=False, types=[1, 2, 3, 3, 4])
+        bg = rng.stream("big_tree")
+        if bg.chance(0.04):
+            # levels 1 and 2 are stated "for every tree": a short arm listed first, then an arm of a thousand nodes
+            # and more (deeper than the interpreter's recursion limit)
+            k, m = bg.randint(1, 6), bg.randint(1050, 2600)
+            n = 1 + k + m
+            t = tree_model.gen_tree(bg, n, "chain", wild=False, types=[1, 2, 3, 3, 4])
+            t["pid"][1 + k] = 0
         p["tree"] = t
         p["levels"] = [1, 2] if w.chance(0.7) else [w.choice([1, 2])]
         p["mc"] = False
@@ -176,6 +184,9 @@ def generate(rng: Prng, tier: str) -> dict:
                 q = t["pid"][i]
                 for c in "xyz":
                     t[c][i] = t[c][q]
+    lg = rng.stream("logging")
+    # the caller's logging configuration: DEBUG enabled on the root logger with a handler attached
+    p["logging"] = "debug" if lg.chance(0.15) else None
     p["custom_names"] = h2.chance(0.08)  # the tree's columns under other names (SWCNames)
     # header comments riding on the tree: text, never geometry
     p["comments"] = h2.choice([None, None, ["SCALE 0.5 0.5 2.0"], [" SCALE 2 2 2", "ORIGINAL_SOURCE x"], ["scale 0.1 0.1 0.1"],
@@ -465,6 +476,16 @@ def execute(program: dict) -> dict:
     t, pos, axis, overlap, n = prepare(program)
     rounds = [None] + list(program.get("edits") or []) + [{"axis": a} for a in (program.get("followup_axes") or [])]
     with World() as world:
+        if program.get("logging") == "debug":
+            import io as _io
+            import logging as _logging
+
+            _root = _logging.getLogger()
+            _root.setLevel(_logging.DEBUG)
+            _root.addHandler(_logging.StreamHandler(_io.StringIO()))
+            world.probe("c14.debug_logging_enabled")
+        if n >= 1000:
+            world.probe("c14.tree_of_1000_nodes_or_more")
         if pos is not None:
             rr_, pp_ = t["r"], t["pid"]
             if any(rr_[q] != rr_[pp_[q]] and abs(rr_[q] - rr_[pp_[q]]) <= 1e-4 * max(rr_[q], rr_[pp_[q]]) for q in range(1, len(pp_))):
